@@ -763,7 +763,11 @@ def layout_text(tokens, gaps=None):
 
 
 WS_COMMON = [" ", "  ", "   ", "\t", "\n", "\r\n", " \n  ", "\n\n"]
-WS_RARE = [" ", " ", "　", " ", "\u000b", "\u000c", "\u0085", "\r"]
+# every code point of the lexer's white-space rule that is NOT also a name character of the FEEL grammar. U+1680, U+180E and U+FEFF are
+# both white space and name start characters in the grammar (rules 28 and 62 overlap), so a layout using them next to a name does
+# not preserve tokens in a defined way: they are left out (DESIGN 9.7).
+WS_RARE = ["\u00a0", "\u2003", "\u3000", "\u2028", "\u000b", "\u000c", "\u0085", "\r", "\u2000", "\u2001", "\u2002", "\u2004", "\u2005",
+           "\u2006", "\u2007", "\u2008", "\u2009", "\u200a", "\u200b", "\u2029", "\u202f", "\u205f"]
 COMMENT_BODIES = ["", " c ", "x", " and ", " ) ", " \" ", " // ", " * ", " / ", "**", " if then else ", " é\U0001f640 ", " 1 + 2 ", "-",
                   # bodies that begin or end with a character of the comment delimiters themselves
                   "/", "/ c ", "/x", "*", "* c", "/*", " c /", " c *", "//", "/ * /"]
